@@ -82,10 +82,14 @@ def run_pipein(cfg, tier, seed, V, RUNNER, sub='pipein', exe='replay_pipein', na
         return out
     logroot = os.path.join(V, 'out', 'corrlogs_' + sub)
     shutil.rmtree(logroot, ignore_errors=True)
+    real_runner = os.path.join(V, 'harness', 'target-real', 'release', 'runner')
+    if any(pr.get('real') for pr in cfg['profiles']):
+        subprocess.run(['sh', os.path.join(V, 'harness', 'real', 'build.sh')], stdout=subprocess.DEVNULL, stderr=subprocess.DEVNULL, timeout=900)
     for pi, pr in enumerate(cfg['profiles']):
         count, scheds = pr[tier]
         d = os.path.join(logroot, '%d' % pi)
-        cmd = [RUNNER, 'run', '--seed', str(seed + 23), '--scheds', str(scheds), '--logdir', d, '--no-touch-yield', '--max-steps', '30000']
+        if pr.get('real') and not os.path.exists(real_runner): continue      # real=True: the same programs on REAL threads
+        cmd = [real_runner if pr.get('real') else RUNNER, 'run', '--seed', str(seed + 23), '--scheds', str(scheds), '--logdir', d, '--no-touch-yield', '--max-steps', '30000']
         if pr['name'].startswith('progs:'): cmd += ['--progs', os.path.join(V, 'corpus', pr['name'][6:])]
         else: cmd += ['--profile', pr['name'], '--count', str(count)] + pr.get('extra', [])
         run_quiet(cmd)
